@@ -51,6 +51,15 @@ CLAIMED = {
  'C11': dict(cat='proof', tech='Coq proof (unpack(pack)=id for every group list and padding, frame shape, fill accounting, deadline) on generated header expressions + correspondence + oracle with an independent decoder',
    text='for every list of groups (1..60 bytes, 18-bit PGN) and every padding length the receive loop returns exactly the groups in order (header bit lemma by exhaustive sweep over 2^18 PGNs lifted with forallb_forall); emitted frames have a legal FD length <= 64 with skippable padding; fill accounting invariant incl. overflow; a buffer is emitted at the first pass at/after its deadline and submission wakes the job thread; real sender/receivers with FEFF/FBFF, time limits, timer-callback submission',
    note='time bound relative to jitter J; FBFF reception is not supported by the stack (decoded by the oracle)'),
+ 'C17': dict(cat='proof', tech='Coq proof (value conversion, DM14/DM15/DM16 layouts on generated expressions) + item correspondence + transaction oracle on real client/server facades',
+   text='bytes_to_values(values_to_bytes vs) = vs for every object size/count, signed decoding is two\'s complement, the serving side extracts from the client\'s DM14 exactly command/pointer/type/count/level, DM15 seed/proceed layouts, DM16 framing lossless for 1..255 bytes; payload and field expressions regenerated from /repo; conversion/guard model tied by item correspondence; real client facade vs real server facade for all sizes, back-to-back transactions, seed/key',
+   note='partial: the three cooperating state machines are not modelled in Coq (T17.3-T17.6 by oracle on the real code = testing)'),
+ 'C18': dict(cat='proof', tech='Coq proof (key gate, error-indicator layout) + item correspondence + failure-history oracle on real facades',
+   text='the request reaches the application iff key = f(seed), otherwise error 0x1003; the 24-bit error indicator and EDCP written by the server are what the client extracts; histories of up to 6 operations mixing wrong key / refusal / error responses / absent server and successes on real facades: nothing served without the right key, every failure raised with its code, every later well-formed operation succeeds',
+   note='partial: recovery (T18.3) is checked on the real code by the oracle, not proved'),
+ 'C19': dict(cat='proof', tech='Coq proof of the server guard decision + item correspondence of the real parse_dm14 + exhaustive injection after every bus frame',
+   text='for every server state with a running requester, a DM14 from any other source (or with another pointer) yields the busy decision: a DM15 failed/busy (error 2 unless one is pending, EDCP 7) addressed to the sender and no state change; the legitimate request is accepted; the guard model is compared with the real parse_dm14 on generated states; an intruder is injected after every bus frame of every transaction shape, once and three times',
+   note='partial: routing per facade state and the induction over positions (T19.2/T19.3) are by exhaustive enumeration on the real code'),
 }
 props = [json.loads(l) for l in open(os.path.join(ROOT, 'properties.jsonl'))]
 old = {}
@@ -71,6 +80,6 @@ for p in props:
                             "level_claimed": {"category": c['cat'], "text": c['text'], "design_ref": "DESIGN.md section 7, " + i},
                             "level_note": c['note'], "technique": c['tech']})
     else:
-        m['not_applicable'].append({"property_id": i, "reason": "check not built yet in this round (planned, see DESIGN.md section 12)"})
+        m['not_applicable'].append({"property_id": i, "reason": "check not built"})
 json.dump(m, open(os.path.join(ROOT, 'MANIFEST.json'), 'w'), indent=1)
 print('claimed', sorted(CLAIMED))
